@@ -146,6 +146,32 @@ class C19Bounded(Bounded):
             grp = sorted(issue_key(i)[1] for i in vv.validate_rules(iter([trules[i] for i in perm])) if type(i).__name__ == "DuplicateTitleIssue")
             if grp != [("t0", "t2"), ("t3", "t5")]:
                 fail("title-groups", f"duplicate titles {titles} in rule order {list(perm)}: reported groups {grp}, expected exactly [('t0', 't2'), ('t3', 't5')]", [list(perm)])
+        # tag validators: every malformed / unknown tag is reported by the validator of ITS namespace, whichever validators ran before and in
+        # whatever order the rules come (tlp / car / cve / detection / stp namespaces, valid and malformed names in each)
+        tagsets = [["car.2016-04-005", "car.16-4-5", "cve.2021-44228", "cve.abc", "detection.dfir", "detection.nope", "stp.4k", "stp.9z", "tlp.amber", "tlp.purple"],
+                   ["cve.abc", "car.abc", "stp.abc", "detection.abc"], ["car.2016-04-005", "cve.2016-04-005", "stp.1", "cve.1"]]
+        trules2 = [SigmaRule.from_dict({**rule_doc(f"g{i}", None, f"Tag rule {i}", {"sel": {"f": i}, "condition": "sel"}), "tags": ts}) for i, ts in enumerate(tagsets)]
+        tagv = [n for n in names if n in ("cartag", "cvetag", "detection_tag", "stptag", "tlptag", "tlpv1_tag", "tlpv2_tag", "namespace_tag", "tag_format", "duplicate_tag")]
+        want_tags = None
+        orders = list(itertools.permutations(range(len(trules2))))
+        vperms = [tagv, list(reversed(tagv))] + [rnd.sample(tagv, len(tagv)) for _ in range(4 if tier == "quick" else 20)]
+        for ro in orders:
+            for vo in vperms:
+                ev += 1
+                nontriv += 1
+                got = sorted((type(i).__name__, issue_key(i)[1], str(getattr(i, "tag", ""))) for i in SigmaValidator([validators[n] for n in vo]).validate_rules(iter([trules2[i] for i in ro])))
+                if want_tags is None:
+                    want_tags = got
+                    bad = {(r, t) for (_, r, t) in got}
+                    for exp_bad in (("g0", "car.16-4-5"), ("g0", "cve.abc"), ("g0", "detection.nope"), ("g0", "stp.9z"), ("g0", "tlp.purple"), ("g1", "car.abc"), ("g1", "stp.abc"), ("g1", "detection.abc"), ("g2", "cve.2016-04-005") if False else ("g1", "cve.abc")):
+                        if ((exp_bad[0],), exp_bad[1]) not in bad:
+                            fail("tags-exact", f"the malformed tag {exp_bad[1]} of rule {exp_bad[0]} is not reported (reported: {sorted(bad)[:12]})", [list(exp_bad)])
+                    for ok_tag in ("car.2016-04-005", "cve.2021-44228", "detection.dfir", "stp.4k", "tlp.amber", "stp.1"):
+                        if any(t == ok_tag and n.endswith("PatternIssue") for (n, _, t) in got):
+                            fail("tags-exact", f"the well-formed tag {ok_tag} is reported as malformed", [ok_tag])
+                elif got != want_tags:
+                    diff = [x for x in got if x not in want_tags] + [x for x in want_tags if x not in got]
+                    fail("tags-order", f"tag issues depend on rule order {list(ro)} / validator order {vo[:4]}..: differing {diff[:3]}", [list(ro), vo])
         # duplicate file names: groups are exact and independent of rule order
         root = tempfile.mkdtemp(prefix="c19_")
         try:
